@@ -117,7 +117,14 @@ class Recorder:
         if self.real_deadline is not None and time.time() > self.real_deadline:
             self.skipped += 1
             return None
-        res = self.check.run_case(params)
+        try:
+            res = self.check.run_case(params)
+        except sk.HarnessError:
+            raise
+        except Exception as e:   # noqa
+            res = stack_exception_result(self.check, e)
+            if res is None:
+                raise
         self.evaluations += 1
         self.subruns += int(res.get("subruns", 1))
         for lab in res.get("labels", ()):
@@ -148,6 +155,22 @@ class Recorder:
             "buckets": {b: [(s, p, v, o) for s, p, v, o in lst] for b, lst in self.buckets.items()},
             "extra": dict(self.extra),
         }
+
+
+def stack_exception_result(check, e):
+    """An exception that escapes from the stack's own code (innermost frame under <repo>/j1939) out of a call the
+    scenario made with valid arguments is a failure of the case, not of the harness; anything else is a harness error."""
+    repo = os.path.abspath(os.environ.get("VERIF_REPO", "/repo")) + os.sep + "j1939" + os.sep
+    tb = traceback.extract_tb(e.__traceback__)
+    inner = tb[-1] if tb else None
+    if inner is None or not os.path.abspath(inner.filename).startswith(repo):
+        return None
+    where = "%s:%s" % (os.path.basename(inner.filename), inner.name)
+    return {"violations": [{"kind": "stack-exception",
+                            "msg": "%s: %s raised by the stack at %s line %d during a call the scenario made with valid arguments"
+                                   % (type(e).__name__, str(e)[:200], where, inner.lineno),
+                            "bucket": "%s|stack-exception|%s|%s" % (check.ID, type(e).__name__, where)}],
+            "labels": ["stack-exception"], "nontrivial": False}
 
 
 def _shard_task(arg):
@@ -453,7 +476,14 @@ def replay(check, path):
     with open(path) as f:
         d = json.load(f)
     params = d["params"] if isinstance(d, dict) and "params" in d else d
-    res = check.run_case(params)
+    try:
+        res = check.run_case(params)
+    except sk.HarnessError:
+        raise
+    except Exception as e:   # noqa
+        res = stack_exception_result(check, e)
+        if res is None:
+            raise
     known = load_known(check.ID)
     bad = 0
     for v in res.get("violations", ()):
